@@ -20,7 +20,7 @@ KNOWN_RES = {"Kanamycin", "Chloramphenicol", "Ampicillin", "Spectinomycin"}
 _state = {}
 
 
-def check_mapping(ctx, name, reg, case, expect_keys=None):
+def check_mapping(ctx, name, reg, case, expect_keys=None, absent_keys=()):
     """the mapping laws on a real registry object"""
     keys = list(reg)
     if len(set(keys)) != len(keys):
@@ -44,7 +44,7 @@ def check_mapping(ctx, name, reg, case, expect_keys=None):
             ctx.fail("{}: item {!r} has resistance {!r}".format(name, k, it.resistance), case)
         if k not in reg:
             ctx.fail("{}: `{!r} in registry` is False for a yielded key".format(name, k), case)
-    for absent in ["__absent__", "", "pYTK999x"]:
+    for absent in ["__absent__", "", "pYTK999x"] + list(absent_keys):
         if absent in keys:
             continue
         try:
@@ -137,7 +137,9 @@ def build_dir(ctx, case):
 def check_dir(ctx, case):
     reg, base = build_dir(ctx, case)
     expect = [f["stem"] for f in case["files"] if f["ext"] in ("gb", "gbk")]
-    check_mapping(ctx, "directory registry", reg, case, expect_keys=expect)
+    # a sub-directory named like a plasmid file holds no plasmid: its stem is an absent key unless a file has it
+    absent = [d.rsplit(".", 1)[0] for d in case["dirs"] if "." in d and d.rsplit(".", 1)[0] not in expect]
+    check_mapping(ctx, "directory registry", reg, case, expect_keys=expect, absent_keys=absent)
     ctx.note("dir-files", len(case["files"]))
     ctx.case(case, nontrivial=len(expect) >= 2)
 
@@ -293,7 +295,12 @@ def gen_dir(rng, nsrc):
         files.append({"stem": stem, "ext": rng.choice(["gb", "gb", "gbk", "gbk", "genbank", "txt", "fasta", "GB"]),
                       "src": rng.randrange(nsrc),
                       "labels": rng.choice([None, None, "tag-second", "others-multi", "both"])})
-    return {"files": files, "dirs": rng.sample(["sub", "old.gb", "x"], rng.randint(0, 2)),
+    dirs = rng.sample(["sub", "old.gb", "x", "backup.gbk"], rng.randint(0, 2))
+    gbfiles = [f for f in files if f["ext"] in ("gb", "gbk")]
+    if gbfiles and rng.random() < 0.3:
+        f = rng.choice(gbfiles)
+        dirs.append(f["stem"] + "." + ("gbk" if f["ext"] == "gb" else "gb"))      # pX.gb/ next to pX.gbk
+    return {"files": files, "dirs": dirs,
             "junk": rng.sample(["README", "notes.txt", "seq.fa", ".hidden"], rng.randint(0, 2))}
 
 
